@@ -140,7 +140,16 @@ fn check_case(spec: &str, obs: &mut Obs) {
                 let d = match l.kind() {
                     K::IntNumber(i) => format!("int:{:?}", i.value()),
                     K::FloatNumber(f) => format!("float:{:?}", f.value()),
-                    K::BitString(b) => format!("bits:{:?}", b.value().map(|c| c.to_string())),
+                    K::BitString(b) => {
+                        // both accessors of the token must agree
+                        let v = b.value().map(|c| c.to_string());
+                        let s2 = b.str().map(|c| c.to_string());
+                        if v == s2 {
+                            format!("bits:{v:?}")
+                        } else {
+                            format!("bits:value()={v:?} but str()={s2:?}")
+                        }
+                    }
                     K::Bool(b) => format!("bool:{b}"),
                     other => format!("other:{other:?}"),
                 };
@@ -166,7 +175,7 @@ fn check_case(spec: &str, obs: &mut Obs) {
     let ast_expect = match class {
         "int" | "tint" | "iint" => format!("int:Some({})", expect[0]),
         "float" | "tfloat" | "ifloat" => format!("float:{:?}", parse_ref_f64(expect[0])),
-        "bits" => format!("bits:Some({:?})", lit.trim_matches('"')),
+        "bits" => format!("bits:Some({:?})", lit.trim_matches(|c| c == '"' || c == '\'')),
         _ => format!("bool:{}", expect[0]),
     };
     match &ast_lit {
@@ -298,6 +307,8 @@ fn random_case(r: &mut Rng) -> String {
         }
         6 => {
             let (t, b) = random_bitstring(r, 256);
+            // the front end accepts either quote character for a bit string
+            let t = if r.chance(1, 3) { t.replace('"', "'") } else { t };
             format!("L|{}|bits||{t}|{b}", if pos == "gatearg" { "init" } else { pos })
         }
         7 => {
@@ -427,6 +438,12 @@ impl Property for C10 {
                 let len = 63 - x.leading_zeros() as usize;
                 let bits: String = (0..len).rev().map(|k| if (x >> k) & 1 == 1 { '1' } else { '0' }).collect();
                 format!("L|init|bits||\"{bits}\"|{bits}")
+            }),
+            Stream::new("all-single-quoted-bit-strings-up-to-10", (1u64 << 11) - 2, true, |i| {
+                let x = i + 2;
+                let len = 63 - x.leading_zeros() as usize;
+                let bits: String = (0..len).rev().map(|k| if (x >> k) & 1 == 1 { '1' } else { '0' }).collect();
+                format!("L|init|bits||'{bits}'|{bits}")
             }),
             Stream::new("random-literals", tier.pick(60_000, 3_000_000), false, move |i| {
                 let mut r = Rng::new(mix(&[seed, 0xC10, i]));
